@@ -27,6 +27,7 @@ type orderGate struct {
 	arrived  int
 	turn     int
 	timedOut bool
+	rounds   int
 	Observed []string // ids in the order their calls returned
 }
 
@@ -47,7 +48,7 @@ func (g *orderGate) attach(f *FakeDocker) {
 	go func() {
 		time.Sleep(3 * time.Second)
 		g.mu.Lock()
-		if g.arrived < g.n {
+		if g.arrived < g.n && g.rounds == 0 {
 			g.timedOut = true
 			g.cond.Broadcast()
 		}
@@ -81,6 +82,12 @@ func (g *orderGate) leave(id string) {
 	}
 	g.mu.Lock()
 	g.turn++
+	if g.turn >= g.n {
+		// one SelectLogs round is complete; be ready for the next one of the same query
+		g.turn = 0
+		g.arrived = 0
+		g.rounds++
+	}
 	g.cond.Broadcast()
 	g.mu.Unlock()
 }
@@ -88,7 +95,11 @@ func (g *orderGate) leave(id string) {
 func (g *orderGate) observed() string {
 	g.mu.Lock()
 	defer g.mu.Unlock()
-	return strings.Join(g.Observed, ">")
+	obs := g.Observed
+	if len(obs) > g.n {
+		obs = obs[:g.n] // first round
+	}
+	return strings.Join(obs, ">")
 }
 
 // permutations returns all permutations of 0..n-1 (n small).
